@@ -19,6 +19,13 @@ def one(ctx, data, meta=None, seed=0, nvar=2):
     ctx.evaluations += 1; good = True
     i0, m0 = pk.both(ctx.drv, data, False, True, want=['plain', 'runs', 'comments', 'core', 'images', 'text', 'files'])
     if not compare_keys(ctx, 'attributes / files', data, False, True, i0, m0, KEYS + ['files']): good = False
+    def core_by_relationship(i, d, label):
+        # core properties come from the part RELATED as core-properties; without that relationship: an empty dict
+        if 'ok' in i.get('files', {}) and 'ok' in i.get('core', {}) and not any(ty == 'core-properties' for _p, ty, _i, _t in i['files']['ok']) and i['core']['ok']:
+            ctx.fail('core properties are returned although no part is related as core-properties (a member found by its file name?)', case_payload(d, html=False, dup=True, variant=label),
+                     {'core_properties': i['core']['ok']}); return False
+        return True
+    if not core_by_relationship(i0, data, 'original'): good = False
     rng = random.Random(seed)
     for k in range(nvar):
         try: vd, moved = relocate(rng, data)
@@ -28,6 +35,7 @@ def one(ctx, data, meta=None, seed=0, nvar=2):
         case = case_payload(vd, html=False, dup=True, original_b64=case_payload(data)['archive_b64'], moved=moved)
         if not compare_keys(ctx, 'attributes / files (relocated)', vd, False, True, iv, mv, KEYS + ['files'], {'moved': moved}): good = False
         ctx.count('relocated parts', len(moved))
+        if not core_by_relationship(iv, vd, 'relocated'): good = False
         for key in KEYS:
             a, b = i0.get(key), iv.get(key)
             if a is None or b is None or 'ok' not in a: continue
